@@ -541,6 +541,17 @@ class Evolver:
             if any(s["name"] == "TextDocumentRegistrationOptions" for s in self.doc["structures"]):
                 self.doc["requests"].append(ov)
                 self.edits.append({"edit": "E5-new-request", "method": ov["method"], "typeName": None, "params": ov["params"], "result": ov["result"], "registrationOptions": ov["registrationOptions"]})
+            # items without any property (InitializedParams-like): the class of the `and` type has an empty body
+            ea, eb = self.fresh_type_name("VfEmptyA"), self.fresh_type_name("VfEmptyB")
+            for n_ in (ea, eb):
+                self.doc["structures"].append({"name": n_, "properties": []})
+                self.new_structs.append(n_)
+                self.edits.append({"edit": "E1-new-structure", "name": n_, "properties": []})
+            self.counter += 1
+            em = {"method": f"vf/andEmpty{self.counter}", "messageDirection": "clientToServer", "params": self._struct_ref(), "result": {"kind": "base", "name": "null"},
+                  "registrationOptions": {"kind": "and", "items": [{"kind": "reference", "name": ea}, {"kind": "reference", "name": eb}]}}
+            self.doc["requests"].append(em)
+            self.edits.append({"edit": "E5-new-request", "method": em["method"], "typeName": None, "params": em["params"], "result": em["result"], "registrationOptions": em["registrationOptions"]})
             # (requests and notifications, with and without typeName)
             for is_req, typed, first in ((True, True, True), (True, False, False), (False, True, False), (False, False, True)):
                 self.counter += 1
